@@ -147,7 +147,7 @@ CHECKS = {
         "budget_s": {"quick": 300, "thorough": 1800},
         "hard_timeout_s": {"quick": 900, "thorough": 3600},
         "meta": {
-            "rule": "(A) set/time algebra: all pairs of lists of length <=3 over a 3-name universe (incl. duplicates, nil, empty) against a set-theoretic reference, ParseStates with an unknown name, Time.* on all 2-vectors over 0..2, tick helpers; (B) totality: every exported method of *am.Machine (reflection) and every exported non-generic function of pkg/machine, pkg/helpers, pkg/integrations (registry regenerated from the current tree) x up to 24 argument tuples from a per-type grid (state lists incl. duplicates/empty/nil, nil/empty/non-empty args, live/cancelled ctx and nil ctx where the doc says optional, nil event for Ev* variants, an event without a machine, the running handler's own event, ints 0..2, no-op funcs) x 5 lifecycle phases (fresh, errored, after SetSchema, inside a handler, disposed); each call in its own fake-time bubble in a child process with a write-ahead log (fatal errors and real-lock blocks are attributed to the case); verdict: panic, or blocked for an hour of fake time, or 6 s of real time confirmed by re-running the case alone in a fresh process with a 20 s watchdog (unconfirmed hits are counted in the evidence as watchdog_hits_not_reproduced); (C) AddSync/RemoveSync/Cant*/Ask*/WaitFor* in forced scenarios vs what really happened; (D) values returned by getters documented as copies are modified and the machine re-read. non-trivial = algebra cases with duplicates",
+            "rule": "(A) set/time algebra: all pairs of lists of length <=3 over a 3-name universe (incl. duplicates, nil, empty) against a set-theoretic reference, ParseStates with an unknown name, Time.* on all 2-vectors over 0..2, tick helpers; (B) totality: every exported method of *am.Machine (reflection) and every exported non-generic function of pkg/machine, pkg/helpers, pkg/integrations (registry regenerated from the current tree) x up to 24 argument tuples from a per-type grid (state lists incl. duplicates/empty/nil, nil/empty/non-empty args, live/cancelled ctx and nil ctx where the doc says optional, nil event for Ev* variants, an event without a machine, the running handler's own event, ints 0..2, no-op funcs) x 5 lifecycle phases (fresh, errored, after SetSchema, inside a handler, disposed); each call in its own fake-time bubble in a child process with a write-ahead log (fatal errors and real-lock blocks are attributed to the case); verdict: panic, or blocked for an hour of fake time, or 6 s of real time confirmed by re-running the case alone in a fresh process with a 20 s watchdog (unconfirmed hits are counted in the evidence as watchdog_hits_not_reproduced); (C) AddSync/RemoveSync/Cant*/Ask*/WaitFor* in forced scenarios vs what really happened; (D) values returned by getters documented as copies are modified and the machine re-read. non-trivial = algebra cases with duplicates. Thorough tier: lists of length <=4 over a 4-name universe (342 lists, 116,964 pairs), ParseStates inputs up to length 5, Time vectors over 0..5, ticks 0..65, up to 96 argument tuples per function and phase",
             "assumptions": ["functions that by contract wait for the machine (Sync/Async/WaitFor/Ask/Cant/Eval/Dispose...) are not called from inside a handler and 'blocks' is only a verdict for them on a disposed machine", "string parameters receive an existing state name; unknown state names panic by documentation", "functions needing network, environment or dedicated states are listed as skipped in the evidence notes"],
         },
     },
